@@ -66,6 +66,10 @@ def find_reads(expr, datanames, idxname, cur, fname):
             reads.append((kind, width, a, bo))
     return reads
 
+def mentions_read(node, names):
+    """node contains DATA[...] for one of the names"""
+    return any(isinstance(n, ast.Subscript) and isinstance(n.value, ast.Name) and n.value.id in names for n in ast.walk(node))
+
 def mentions(node, names):
     return any(isinstance(n, ast.Name) and n.id in names for n in ast.walk(node))
 
@@ -186,9 +190,18 @@ EXTRA_READERS = [
     ('stxt_run', 'drxtract/stxt/stxt.py', None, 'parse_stxt_data', ('fdata',), 20),
     ('fmap_header', 'drxtract/fmap/fmap.py', None, 'parse_fmap_data', ('header_data',), 28),
     ('fmap_meta', 'drxtract/fmap/fmap.py', None, 'parse_fmap_data', ('header_data',), 8),
+    ('cast_image', 'drxtract/cast/image.py', 'ImageParser', 'parse', ('header_data',), None),
+    ('cast_image_ext', 'drxtract/cast/image.py', 'ImageParser', 'parse', ('header_data',), None),
+    ('cast_field', 'drxtract/cast/textinput.py', 'TextInputParser', 'parse', ('header_data',), None),
+    ('cast_button', 'drxtract/cast/button.py', 'ButtonParser', 'parse', ('header_data',), None),
+    ('cast_shape', 'drxtract/cast/shape.py', 'ShapeParser', 'parse', ('header_data',), None),
+    ('cast_text', 'drxtract/cast/text.py', 'TextParser', 'parse', ('header_data',), None),
+    ('cast_transition', 'drxtract/cast/transition.py', 'TransitionParser', 'parse', ('header_data',), None),
 ]
 # readers that are the body of the k-th loop (0-based, among the loops reading the data variable) of the function
-LOOP_BODIES = {'stxt_run': 0, 'fmap_meta': 0}
+LOOP_BODIES = {'stxt_run': 0, 'fmap_meta': 0, 'cast_image_ext': 0}
+# byte offset at which a block body starts (the end of the straight-line part before it)
+BLOCK_START = {'cast_image_ext': 23}
 
 def generate():
     out = [HEADER % 'the straight-line field readers listed in tie/gen_layouts.py READERS',
@@ -199,17 +212,17 @@ def generate():
             trees[path] = parse(path)
         f = find_function(trees[path], cls, fn)
         if coqname in LOOP_BODIES:
-            loops = [st for st in f.body if isinstance(st, (ast.For, ast.While)) and mentions(st, datanames)]
+            loops = [st for st in f.body if isinstance(st, (ast.For, ast.While, ast.If)) and mentions_read(st, datanames)]
             k = LOOP_BODIES[coqname]
             if len(loops) <= k:
                 raise TranslatorError('%s.%s: loop number %d reading %s not found' % (cls, fn, k, datanames))
             idxn = next((n.id for n in ast.walk(loops[k]) if isinstance(n, ast.Name) and n.id in ('indx', 'idx', 'index')), None)
-            fields, end = analyse(f, datanames, start=0, body=loops[k].body, idxname=idxn)
+            fields, end = analyse(f, datanames, start=BLOCK_START.get(coqname, 0), body=loops[k].body, idxname=idxn)
         else:
             fields, end = analyse(f, datanames)
         if not fields:
             raise TranslatorError('%s.%s: no field reads recognised' % (cls, fn))
-        lay, names, pos = to_layout(fields, fn)
+        lay, names, pos = to_layout(fields, fn, base=BLOCK_START.get(coqname, 0))
         if total is not None:
             if pos > total:
                 raise TranslatorError('%s.%s reads %d bytes, record has %d' % (cls, fn, pos, total))
